@@ -100,8 +100,8 @@ def reason_not_overwritten(R, prog, P):
     th = K.param(G.root, 0)
     snap = K.locals_defined_only_by(G.root, r'^%s->state$' % re.escape(th)) | {th + '->state'}    # the state, or a local snapshot of it
     K.check_at(R, P + '.K6', G, res, wr,
-               require=lambda st, ev: any(re.match(r'^G:\w+ == 0=T$', x) or re.match(r'^G:\w+=F$', x) or re.match(r'^G:\w+->error_number=F$', x) for x in st if 'error_number' in x)
-               and any(('G:%s == 0=T' % n) in st or ('G:%s=F' % n) in st for n in snap),
+               require=lambda st, ev: (('L:%s->lock' % th) in st and any(re.match(r'^G:%s == [1-9]\d*=T$' % re.escape(n), x) for n in snap for x in st)) or any(re.match(r'^G:\w+ == 0=T$', x) or re.match(r'^G:\w+=F$', x) or re.match(r'^G:\w+->error_number=F$', x) for x in st if 'error_number' in x)
+               and any(('G:%s == 0=T' % n) in st or ('G:%s=F' % n) in st for n in snap),    # a store made with th->lock held for a thread positively seen in a non-READY state (the SLEEPING wake path) is governed by retest-under-lock and K8
                key_fn=lambda ev: P + '.K6:photon::thread_interrupt:mark-only-ready-unmarked',
                describe=lambda ev: 'without the thread lock a reason is stored only for a READY thread with no pending reason', min_sites=1, what='error_number write')
 
@@ -214,3 +214,64 @@ def wait_all_covers_every_queue(R, prog, P):
     K.check_at(R, P + '.K6', G, res, lambda ev: ev.kind == 'return' and ev.depth == 0, all_empty,
                key_fn=lambda ev: P + '.K6:photon::wait_all:returns-only-when-run-sleep-and-standby-queues-are-empty',
                describe=lambda ev: 'wait_all() returns only after the run queue (1-2 threads), the sleep queue and the standby queue were all seen empty', min_sites=1, what='return')
+
+
+def wake_reason_before_publish(R, prog, P):
+    """K8: the wake-up reason of a sleeper (thread::error_number) is stored BEFORE the sleeper is published as runnable
+    (dequeue_ready_atomic / standby queue / run queue, all reached through prelocked_thread_interrupt()): once published, another
+    vCPU may run the thread, which reads and clears error_number immediately -- a store that lands after the publication is either
+    lost (the sleeper reports a timeout / 0 for a notification) or delivered to a later, unrelated sleep.  The store may sit in
+    prelocked_thread_interrupt() itself (today) or in every caller before the call (an equivalent refactoring); what is rejected
+    is a path on which the thread is published with no reason stored, and a reason stored for a thread after it was published."""
+    ERRN = 'photon::thread::error_number'
+    WAKE = 'photon::prelocked_thread_interrupt'
+    def wr(ev):
+        w = K.written_member(ev)
+        return bool(w) and w[0] == ERRN
+    def wr_base(ev):
+        w = K.written_member(ev)
+        p = w[1] if w else ''
+        return p[:-len('->error_number')] if p.endswith('->error_number') else None
+    publish = lambda ev: ev.kind == 'call' and ((ev.callee() or '') in ('photon::thread::dequeue_ready_atomic', 'photon::AtomicRunQ::insert_tail')
+                                                 or (ev.callee() or '').endswith('move_to_standbyq_atomic'))
+    G = K.build(R, prog, WAKE)
+    th = K.param(G.root, 0)
+    res = an.run(G, [an.SeenTracker([('reason', wr), ('published', publish)])])
+    n = 0
+    callee_stores = True
+    for nid, idx, ev, states in res.at(publish):
+        for st in states:
+            n += 1
+            if 'S:reason' not in st:
+                callee_stores = False
+    if n == 0:
+        R.broken.append('%s.K8: prelocked_thread_interrupt no longer publishes the thread (anchor vanished)' % P)
+    K.check_at(R, P + '.K8', G, res, wr, require=lambda st, ev: 'S:published' not in st,
+               key_fn=lambda ev: P + '.K8:photon::prelocked_thread_interrupt:no-reason-store-after-publish',
+               describe=lambda ev: 'inside the wake routine the reason is not written once the thread was dequeued/queued as runnable', min_sites=0, what='error_number write')
+    callers = K._dedupe(K.callers_of(prog, WAKE))
+    sites = 0
+    for f in callers:
+        G = K.build_f(R, prog, f)
+        wake = lambda ev: ev.kind == 'call' and ev.callee() == WAKE
+        names = sorted({ev.arg_path(0) for nid, idx, ev in G.events() if wake(ev) and ev.arg_path(0)})
+        spec = []
+        for X in names:
+            rebind = lambda ev, X=X: (ev.kind == 'declstmt' and any(ev.f.decls[v['decl']]['name'] == X for v in ev.e['vars'])) or \
+                                     (ev.kind == 'binop' and ev.e['op'] == '=' and ev.path(ev.e['l']) == X) or \
+                                     (ev.kind == 'construct' and X in (ev.show() or '').split('(')[0].split())
+            spec.append(('reason:' + X, lambda ev, X=X: wr(ev) and wr_base(ev) == X, ()))
+            spec.append(('woken:' + X, lambda ev, X=X: wake(ev) and ev.arg_path(0) == X, ('reason:' + X,)))
+            spec.append(('rebind:' + X, rebind, ('woken:' + X, 'reason:' + X)))
+        res = an.run(G, [an.SeenTracker(spec)])
+        sites += K.check_at(R, P + '.K8', G, res, wake,
+                            require=lambda st, ev: callee_stores or ('S:reason:%s' % ev.arg_path(0)) in st,
+                            key_fn=lambda ev, f=f: '%s.K8:%s:reason-stored-before-publish' % (P, f.nname),
+                            describe=lambda ev: 'the sleeper handed to prelocked_thread_interrupt() has its wake-up reason stored (by the callee before its first publication, or by this caller before the call)',
+                            min_sites=1, what='prelocked_thread_interrupt')
+        K.check_at(R, P + '.K8', G, res, lambda ev: wr(ev) and wr_base(ev) in names,
+                   require=lambda st, ev: ('S:woken:%s' % wr_base(ev)) not in st,
+                   key_fn=lambda ev, f=f: '%s.K8:%s:no-reason-store-after-wake' % (P, f.nname),
+                   describe=lambda ev: 'no reason is written for a thread after it was handed to prelocked_thread_interrupt() (it may already be running on another vCPU)',
+                   min_sites=0, what='error_number write')
+    R.require(sites >= 5, '%s.K8: expected >= 5 call sites of prelocked_thread_interrupt, found %d' % (P, sites))
